@@ -94,7 +94,12 @@ def assd_kernel():
             "    dt = np.add.reduce(dt, axis=0)\n    dt = np.sqrt(dt)",
             "result = []", "if return_distances:\n    result.append(dt)", "if return_indices:\n    result.append(ft)",
             "if len(result) == 2:\n    return tuple(result)\nelif len(result) == 1:\n    return result[0]\nelse:\n    return None"]
-    if body_differs(f, want):
+    # the same dispatch on the two flags written as direct returns
+    want_direct = want[:3] + ["if return_distances and return_indices:\n    return (dt, ft)", "if return_distances:\n    return dt",
+                              "if return_indices:\n    return ft", "return None"]
+    def inplace_sqrt(w):       # np.sqrt(dt, out=dt) on the private float64 array is dt = np.sqrt(dt)
+        return [x.replace("    dt = np.sqrt(dt)", "    np.sqrt(dt, out=dt)") for x in w]
+    if all(body_differs(f, w) for w in (want, want_direct, inplace_sqrt(want), inplace_sqrt(want_direct))):
         raise Refuse("_distance_transform_edt body: " + str(body_differs(f, want))[:300])
     out.append("Definition gen_distance_is_sqrt_of_summed_squared_offsets : bool := true.")
     imp = [ast.unparse(n) for n in tree.body if isinstance(n, (ast.Import, ast.ImportFrom))]
